@@ -55,6 +55,8 @@ fixed("C03", "astral-shorthand", "0e160c5", "valid non-BMP member-name-shorthand
 fixed("C03", "zero-with-exponent", "fa7c6b5", "the valid number literals 0e1 / 0E-2 were refused by the leading-zero test", hole("$[?@.a==0e1]", "accept"))
 fixed("C03", "escaped-control", "1c29a0f", "\\u0000-\\u001f escapes were refused", hole("$['\\u0000\\u001f']", "accept"))
 fixed("C03", "logical-arg-paren", "6de8b16", "a parenthesized or negated argument of a function call was a syntax error", {"module": "vtools.props.c05", "func": "r_typed", "args": {"query": "$[?fl((@.a || @.b))]", "sig": {"fl": [["L"], "L"]}}})
+fixed("C03", "selector-comma-inside-call", "e0473b8", "a filter selector followed by another selector inside a query argument of a function call ($[?count(@[?@.a, ?@.b]) > 1]) was a syntax error: the lexer took the comma for an argument separator (found by a seeding sub-agent while probing the unchanged tree; now covered by the derivation sweep and three new seeds)",
+      hole("$[?count(@[?@.a, ?@.b]) > 1]", "accept"))
 # ---- C05
 fixed("C05", "value-call-as-test-under-not", "8712ab1", "a ValueType call used as a test under '!' or beside '&&'/'||' compiled ($[?!length(@.a)])",
       {"module": "vtools.props.c05", "func": "r_typed", "args": {"query": "$[?!f(@.a)]", "sig": {"f": [["V"], "V"]}}})
